@@ -133,6 +133,11 @@ pub fn check(q: &EllQ, listed_kf1: bool, part: &mut Part) -> V {
 /// Deep tier (depth > 5): same clauses, the coverage is searched through its ranges and the
 /// circular case uses points of the cone hashed at the query depth (as the deep tier of C05).
 pub fn check_deep(q: &EllQ, listed_kf1: bool, part: &mut Part) -> V {
+  check_deep_n(q, listed_kf1, 24, part)
+}
+
+/// `nbear` bearings; witnesses at the centre, 0.3 a, 0.7 a, half a cell inside the rim and on the rim.
+pub fn check_deep_n(q: &EllQ, listed_kf1: bool, nbear: usize, part: &mut Part) -> V {
   let bad = |kind: &str, expected: String, actual: String| V::Bad(Viol { api: q.api().into(), kind: kind.into(), case: q.to_json(), expected, actual });
   let out = match q.run() {
     Ok(o) => o,
@@ -182,9 +187,10 @@ pub fn check_deep(q: &EllQ, listed_kf1: bool, part: &mut Part) -> V {
   if q.b == q.a {
     let margin = if q.a >= 1e-6 { 1e-9 } else { 1e-3 * q.a };
     let mut known: Option<Value> = None;
-    for k in 0..24 {
-      let bearing = k as f64 * (TWO_PI / 24.0) + 0.05;
-      for f in [0.0, 0.3, 0.7, 1.0 - 1e-6] {
+    let cell = PI / 3.0f64.sqrt() / (1u64 << d) as f64;
+    for k in 0..nbear {
+      let bearing = k as f64 * (TWO_PI / nbear as f64) + 0.05;
+      for f in [0.0, 0.3, 0.7, (1.0 - 0.5 * cell / q.a).max(0.5), 1.0 - 1e-6] {
         let (l, b) = destination(q.lon, q.lat, bearing, q.a * f);
         let h = match guarded(move || nested::hash(d, l, b)) {
           Ok(h) if h < n_hash(d) => h,
@@ -312,6 +318,29 @@ pub fn run(ctx: &Ctx) -> i32 {
     part
   });
   total.merge(deep_part);
+  // deep-large tier: ellipses thousands of cells across (13+ recursion levels below the start
+  // depth, outputs of 10^5 cells)
+  let large: Vec<(u8, f64)> = if quick { vec![(16, 0.25), (18, 0.06)] } else { vec![(13, 1.0), (14, 0.5), (16, 0.25), (17, 0.12), (18, 0.06), (20, 0.016), (22, 0.004)] };
+  let lcs: Vec<(f64, f64)> = if quick { vec![(0.1234, 0.2345), (3.3, 1.05)] } else { vec![(0.1234, 0.2345), (3.3, 1.05), (PI / 2.0, -0.729), (5.5, -1.4), (0.0, HALF_PI)] };
+  let ljobs: Vec<(u8, f64, usize, f64, u8)> = large.iter().flat_map(|&(d, a)| (0..lcs.len()).flat_map(move |ci| [(1.0, 0u8), (0.6, 0), (1.0, 2)].into_iter().map(move |(ratio, delta)| (d, a, ci, ratio, delta)))).collect();
+  let large_part = par_jobs(ljobs.len(), |j| {
+    let (d, a, ci, ratio, delta) = ljobs[j];
+    let (lon, lat) = lcs[ci];
+    let mut part = Part::new();
+    if ctx.over_budget() {
+      part.caps.push(format!("wall budget {}s reached in C13 deep-large enumeration", ctx.budget_s));
+      return part;
+    }
+    let q = EllQ { depth: d, delta, lon, lat, a, b: a * ratio, pa: 0.7 };
+    part.stratum(if ratio == 1.0 { "deep-large-circular" } else { "deep-large-eccentric" }, 1, 1);
+    match check_deep_n(&q, listed_kf1, 96, &mut part) {
+      V::Ok => {}
+      V::Known(ex) => part.known(KF1, ex),
+      V::Bad(v) => part.viol(v),
+    }
+    part
+  });
+  total.merge(large_part);
   // rejection of a >= pi/2
   for a in [HALF_PI, 1.6, 2.0, 3.0] {
     for delta in [0u8, 1] {
